@@ -549,3 +549,38 @@ def r20_9(run):
 
 
 RULES = [("R20.1", r20_1), ("R20.2", r20_2), ("R20.3", r20_3), ("R20.4", r20_4), ("R20.5", r20_5), ("R20.6", r20_6), ("R20.7", r20_7), ("R20.8", r20_8), ("R20.9", r20_9)]
+
+
+def r20_10(run):
+    """what a control run steps is decided by the controller tables at the time of the call: prepare_run_ctrl of the multinet derives
+    `level` and `controller_order` from the multinet on every call and sets `errors`; none of these stores depends on what the
+    ctrl_variables dictionary already holds (a dictionary handed in again -- run_control fills the caller's dictionary in place -- must
+    not bring back the controller order of an earlier run: controllers added since are never stepped, dropped ones still write)."""
+    from ..arrnf import ANF, C, contains, show as tshow, walk
+    ix = run.index
+    f = ix.func("pandapipes.multinet.control.run_control_multinet.prepare_run_ctrl")
+    run.analysed(f)
+    ps = f.params()
+    if len(ps) < 2:
+        raise AnalysisError("prepare_run_ctrl(multinet, ctrl_variables, ...) expected")
+    mn, cv = ("n", ps[0]), ("n", ps[1])
+    r = ANF(ix, f, strip=False).run()
+    for k in ("level", "controller_order", "errors"):
+        st = [e for e in r.stores() if e.index == (C(k),)]
+        if not st:
+            run.ob("prepare_run_ctrl|%s|set-on-every-call" % k, False, "prepare_run_ctrl stores ctrl_variables[%r]" % k, run.where(f, f.node))
+            continue
+        bad = []
+        for e in st:
+            for c_, _p in e.cond:
+                # `ctrl_variables is None` only decides which dictionary is filled; any other look into it makes the store depend on it
+                if contains(c_, cv) and not (c_[0] == "cmp" and c_[1] in ("is", "is not", "==", "!=") and C(None) in c_[2:4]):
+                    bad.append(tshow(c_)[:80])
+        from_net = k == "errors" or all(contains(e.value, mn) for e in st)
+        run.ob("prepare_run_ctrl|%s|set-on-every-call" % k, not bad and from_net,
+               "ctrl_variables[%r] is derived anew on every call (no test on what the dictionary already holds)" % k,
+               run.where(f, st[0].node), detail="; ".join(bad) if bad else None)
+    run.floor(3)
+
+
+RULES.append(("R20.10", r20_10))
